@@ -14,6 +14,9 @@ import c19gen as G
 
 PLACEMENTS = ["single_above", "single_trail", "group_lead", "group_trail"]
 LAYOUTS = ["inside", "outside", "ownmod", "sibling", "inside-root", "parent", "outside-rel"]
+HOST = tuple(sh(["go", "env", "GOOS", "GOARCH"], env=goenv())[1].split())       # the platform mage builds and runs magefiles for
+_FOS, _FARCH = G.FOREIGN.get(HOST[0], "plan9"), G.FOREIGN.get(HOST[1], "riscv64")
+ENVS = [{"GOOS": _FOS}, {"GOARCH": _FARCH}, {"GOOS": _FOS, "GOARCH": _FARCH}, {"GOOS": "notanos", "GOARCH": "bogus"}, {}]
 # the first run of a project (`mage -l`) parses and compiles; the later ones reuse that binary
 FAST = {"MAGEFILE_HASHFAST": "1"}
 
@@ -89,6 +92,14 @@ def gen_projects(rng, quick):
             if tg:
                 j = rng.choice(tg)
                 proj["packages"][j] = G.gen_package(rng, j, shape="ns")
+        # every second project (the odd ones): targets of one or two TAGGED packages live in files with
+        # platform constraints, and mage is started in one of five environments; the exposure is
+        # the host's in each of them
+        if i % 2 == 1:
+            tg = sorted({s["pkg"] for s in specs if G.oracle_tag(s) is not None})
+            for j in rng.sample(tg, min(len(tg), rng.choice([1, 2]))):
+                G.add_platform_files(rng, proj["packages"][j], HOST[0], HOST[1])
+            proj["env"] = ENVS[(i // 2) % len(ENVS)]
         # every fourth project: a TAGGED package without any target (contributes nothing; since fix
         # 904a16e the generated main imports it as `_`); everything else is listed and runs
         if i % 4 == 1:
@@ -135,16 +146,21 @@ def odd_projects(rng, i0):
 
 
 # ------------------------------------------------------------------ running one project
-def golist(mage, cwd, paths):
-    """{path: resolved?} as the go tool answers in cwd"""
+def golist(mage, cwd, paths, gofiles=None):
+    """{path: resolved?} as the go tool answers in cwd - with the HOST platform (mage.env() carries no
+    GOOS/GOARCH; mage itself forces the host platform on every go command, internal.EnvWithCurrentGOOS).
+    gofiles (a dict) receives {path: .GoFiles}."""
     if not paths:
         return {}
-    rc, out, err = sh(["go", "list", "-e", "-f", "{{.ImportPath}}|{{.Dir}}|{{if .Error}}E{{end}}"] + paths, cwd=cwd, env=mage.env(), timeout=300)
+    rc, out, err = sh(["go", "list", "-e", "-f", "{{.ImportPath}}|{{.Dir}}|{{if .Error}}E{{end}}|{{join .GoFiles \",\"}}"] + paths,
+                      cwd=cwd, env=mage.env(), timeout=300)
     res = {p: False for p in paths}
     for l in out.splitlines():
         parts = l.split("|")
-        if len(parts) == 3 and parts[0] in res:
+        if len(parts) == 4 and parts[0] in res:
             res[parts[0]] = bool(parts[1]) and parts[2] == ""
+            if gofiles is not None and res[parts[0]]:
+                gofiles[parts[0]] = parts[3].split(",")
     return res
 
 
@@ -153,7 +169,10 @@ def run_project(ctx, mage, proj, outside):
     d = mage.project(files, name=proj["name"], probe=False, gomod=False)
     cwd, pre, mf = G.start(proj, d, outside)
     obs = {"dir": d, "mf": mf, "cwd": cwd, "args": pre}
-    r = mage.run(cwd, pre + ["-l"])
+    penv = proj.get("env") or {}      # the environment mage is started in (GOOS/GOARCH of another platform ...)
+    fast = dict(FAST, **penv)
+    obs["env"] = penv
+    r = mage.run(cwd, pre + ["-l"], env=penv)
     obs["list_rc"] = r["rc"]
     if r["rc"] != 0:
         obs["error"] = projlib.stderr_class(r["err"])
@@ -165,14 +184,14 @@ def run_project(ctx, mage, proj, outside):
         obs["default_mark"] = lst["default"]
         obs["warnings"] = len(re.findall(r"warning:", r["err"]))
         if names:
-            r2 = mage.run(cwd, pre + names, env=FAST)
+            r2 = mage.run(cwd, pre + names, env=fast)
             obs["run_rc"] = r2["rc"]
             obs["calls"] = [c[0] for c in projlib.calls(r2["out"])]
             if r2["rc"] != 0:
                 obs["run_err"] = r2["err"][-600:]
         else:
             obs["run_rc"], obs["calls"] = 0, []
-        r3 = mage.run(cwd, pre, env=FAST)
+        r3 = mage.run(cwd, pre, env=fast)
         obs["noarg_rc"] = r3["rc"]
         obs["noarg_calls"] = [c[0] for c in projlib.calls(r3["out"])]
         obs["noarg_lists"] = "Targets:" in r3["out"]
@@ -183,10 +202,11 @@ def run_project(ctx, mage, proj, outside):
                 probes.append(a)
         obs["alias_probes"] = []
         for a in probes[:2]:
-            r4 = mage.run(cwd, pre + [a], env=FAST)
+            r4 = mage.run(cwd, pre + [a], env=fast)
             obs["alias_probes"].append({"word": a, "rc": r4["rc"], "calls": [c[0] for c in projlib.calls(r4["out"])], "class": projlib.stderr_class(r4["err"])})
     paths = sorted({G.import_path(proj, pk) for pk in proj["packages"]})
-    obs["golist_mf"] = golist(mage, mf, paths)
+    obs["gofiles"] = {}
+    obs["golist_mf"] = golist(mage, mf, paths, obs["gofiles"])
     obs["golist_start"] = obs["golist_mf"] if cwd == mf else golist(mage, cwd, paths)
     obs["magefiles"] = [os.path.join(mf, f["name"]) for f in sorted(proj["files"], key=lambda f: f["name"])]
     return obs
@@ -320,7 +340,7 @@ def oracle(proj, obs, exposure_only=False):
 def coq_case(proj, obs, ast):
     pk_by_path = {G.import_path(proj, pk): pk for pk in proj["packages"]}
     def world(res):
-        return G.cl(["(%s, %s)" % (G.cs(p), G.cpkg(pk_by_path[p])) for p in sorted(res) if res[p]])
+        return G.cl(["(%s, %s)" % (G.cs(p), G.cpkg(pk_by_path[p], (obs.get("gofiles") or {}).get(p))) for p in sorted(res) if res[p]])
     gl = G.cl(['("MF", %s)' % world(obs["golist_mf"]), '("", %s)' % world(obs["golist_start"])])
     local = G.cl([G.cfunc("", r, n) for r, n in G.pkg_targets(proj["local"])])
     if obs["list_rc"] != 0:
@@ -383,10 +403,13 @@ def run(ctx):
     cov = ctx.coverage
     combos = set()
     dist = {"specs": 0, "untagged": 0, "root": 0, "named": 0}
-    by = {"placement": {}, "group_length": {}, "spelling": {}, "kind": {}, "position": {}, "layout": {}, "raw_path_literal": {}, "tagged_package_shape": {}}
+    by = {"placement": {}, "group_length": {}, "spelling": {}, "kind": {}, "position": {}, "layout": {}, "raw_path_literal": {}, "tagged_package_shape": {}, "environment_of_projects_with_platform_files": {}}
     nerr = 0
     for proj, obs, ast in zip(projects, observations, asts):
         by["layout"][proj["layout"]] = by["layout"].get(proj["layout"], 0) + 1
+        if any("+platform" in pk.get("shape", "") for pk in proj["packages"]):
+            ek = ",".join("%s=%s" % kv for kv in sorted((proj.get("env") or {}).items())) or "plain"
+            by["environment_of_projects_with_platform_files"][ek] = by["environment_of_projects_with_platform_files"].get(ek, 0) + 1
         for f in proj["files"]:
             for d in f["decls"]:
                 for s in d["specs"]:
@@ -418,8 +441,8 @@ def run(ctx):
                               case=seq, extra={"observed_at_step": {k: obs.get(k) for k in ("names", "calls", "error", "stderr", "written_before_step")}})
         elif not proj.get("odd"):
             for clause, detail in oracle(proj, obs):
-                ctx.violation({"kind": "oracle", "clause": clause, "detail": detail, "start": proj["layout"]}, case=proj,
-                              extra={"observed": {k: obs.get(k) for k in ("names", "calls", "error", "stderr", "noarg_calls", "alias_probes", "args")}})
+                ctx.violation({"kind": "oracle", "clause": clause, "detail": detail, "start": proj["layout"], "env": proj.get("env") or {}}, case=proj,
+                              extra={"observed": {k: obs.get(k) for k in ("names", "calls", "error", "stderr", "noarg_calls", "alias_probes", "args", "env")}})
         items.append(coq_case(proj, obs, ast["files"]))
     header = "From Mage Require Import Base.Strs Model.ImportTag Run.eval_C19.\n"
     mism = ctx.coq_eval_shards("cases_C19", header, items, per_shard=max(4, (len(items) + NCPU - 1) // NCPU))
